@@ -17,6 +17,7 @@ from typing import Any, Callable, Optional, Union
 
 import numpy as np
 
+from . import scores as scores_module
 from .cm import ConfusionMatrix
 from .scores import (
     DEFAULT_BOOTSTRAP_CONFIG,
@@ -24,7 +25,6 @@ from .scores import (
     SAMPLING_METHOD_PROPORTION,
     SAMPLING_METHOD_REPLACEMENT,
     SAMPLING_METHOD_SINGLE_PASS,
-    SINGLE_PASS_SAMPLE_THRESHOLD,
     BinaryLabel,
     BootstrapConfig,
     SamplingMethod,
@@ -326,8 +326,9 @@ class GroupScores(Scores):
             # With group-wise stratification single pass sampling is not faster.
             return SAMPLING_METHOD_REPLACEMENT
         elif (
-            self.nb_hard_pos < SINGLE_PASS_SAMPLE_THRESHOLD
-            or self.nb_hard_neg < SINGLE_PASS_SAMPLE_THRESHOLD
+            # Looked up at call time: the variable is documented as a run-time setting
+            self.nb_hard_pos < scores_module.SINGLE_PASS_SAMPLE_THRESHOLD
+            or self.nb_hard_neg < scores_module.SINGLE_PASS_SAMPLE_THRESHOLD
         ):
             return SAMPLING_METHOD_REPLACEMENT
         else:
